@@ -5,6 +5,7 @@ import AfkakProofs.BrokerClient.MonC06
 import AfkakProofs.BrokerClient.Route
 import AfkakProofs.BrokerClient.Boot
 import AfkakProofs.BrokerClient.BootSingle
+import AfkakProofs.BrokerClient.Equiv
 import AfkakProps.Open.C06
 /-!
 # C06 — each request completes exactly once, with the response bearing its own id
@@ -188,6 +189,17 @@ theorem C06_answered_request (cfg : Cfg) (host port : Nat) (evs : List Ev) :
   rw [routes_run cfg evs _ _ 0 (sinv_init host port) (rinv_init host port)]
   rfl
 
+/-- The model the driver executes (`Afkak/BrokerClientR.lean`, with the loops of `_sendQueued`, `close()`
+    and `dataReceived` written out so that callbacks can run inside them) IS the flat model of the
+    theorems above whenever no callback is registered: same observations (markers dropped) for every
+    event list, from some amount of fuel on. -/
+theorem C06_reentrant_model_conservative (cfg : Cfg) (host port : Nat) (evs : List Ev) :
+    ∃ N, ∀ fuel, N ≤ fuel →
+      (Afkak.BrokerClientR.traceRWith cfg fuel (Afkak.BrokerClientR.StR.init host port) (evs.map .flat)).map
+          (fun t => Afkak.BrokerClientR.plain t.2)
+        = (trace cfg (St.init host port) evs).map (·.2) :=
+  Afkak.BrokerClientR.traceR_flat cfg evs (Afkak.BrokerClientR.StR.init host port) rfl (sinv_init host port)
+
 /-- Bootstrap connection, any number of requests, any event list: every request Deferred fires
     exactly once — with the packet carrying its id, by its own cancel, or with the connection-lost
     reason — and an over-long prefix drops the connection (the non-strict bootstrap monitor). -/
@@ -277,8 +289,7 @@ example : (trace ⟨fun _ => 1⟩ (St.init 1 9092) demo).map (·.2) =
   decide
 example : firedOf (trace ⟨fun _ => 1⟩ (St.init 1 9092) demo) = [0, 1, 2] := by decide
 
-/-! Re-entrant callbacks (open statements `C06_reentrant`, `C06_flat_model_is_reentrant_model_without_hooks`
-in `Open/C06.lean`): a concrete run of the re-entrant model — request 2 expects no reply and its callback
+/-! Re-entrant callbacks (open statement `C06_reentrant` in `Open/C06.lean`): a concrete run of the re-entrant model — request 2 expects no reply and its callback
 closes the client while the queue is being written; the monitor `r06` accepts it, and without callbacks
 the two models agree on `demo`. -/
 example : ((Afkak.BrokerClientR.traceR ⟨fun _ => 1⟩ (Afkak.BrokerClientR.StR.init 1 9092)
@@ -318,9 +329,9 @@ C06_bootstrap_monitor_sound
 C06_bootstrap_single
 C06_bootstrap_no_crosstalk_counterexample
 C06_bootstrap_no_crosstalk_partial
+C06_reentrant_model_conservative
 -/
 /- OPEN_STATEMENTS
 C06_bootstrap_no_crosstalk
 C06_reentrant
-C06_flat_model_is_reentrant_model_without_hooks
 -/
